@@ -896,8 +896,8 @@ fn queued_case() -> BoxedStrategy<QueuedCancel> {
 pub fn run(ctx: &Ctx, rep: &Report) {
     run_prop_threads(ctx, rep, "cancel-queued", ctx.tier.pick(48, 1_000), ctx.threads.min(8), &|| queued_case(), &check_queued_cancel);
     run_enum(ctx, rep, "fault-grid", &grid(), true, &check_fault);
-    run_prop(ctx, rep, "faults", ctx.tier.pick(1_200, 30_000), &|| fault_case(), &check_fault);
-    run_prop(ctx, rep, "timeouts", ctx.tier.pick(600, 12_000), &|| timeout_case(), &check_timeout);
+    run_prop(ctx, rep, "faults", ctx.tier.pick(1_200, 90_000), &|| fault_case(), &check_fault);
+    run_prop(ctx, rep, "timeouts", ctx.tier.pick(600, 36_000), &|| timeout_case(), &check_timeout);
 }
 
 pub fn replay(sub: &str, case: &serde_json::Value) -> Result<(), Fail> {
